@@ -332,7 +332,7 @@ Lemma bank_configure_inv b o b' :
   bank_configure b o = Ok b' ->
   cfg_valid (cb_cfg b') /\ cb_emode b' = cb_emode b /\
   bc_op_state (cb_cfg b') = match o_op_state o with Some s => s | None => bc_op_state (cb_cfg b) end /\
-  (forall s, o_op_state o = Some s -> s <> OP_KILLED).
+  (forall s, o_op_state o = Some s -> s <> OP_KILLED /\ bc_op_state (cb_cfg b) <> OP_KILLED).
 Proof.
   unfold bank_configure. intros H.
   apply bind_ok in H as (st & Hst & H).
@@ -340,8 +340,9 @@ Proof.
   apply bind_ok in H as (u & Hv & H). apply Ok_inj in H. subst b'. cbn [cb_cfg cb_emode bc_op_state].
   split; [exact (res_unit_ok _ _ Hv)|]. split; [reflexivity|].
   destruct (o_op_state o) as [s|].
-  - apply bind_ok in Hst as (u0 & Hc & Hst). apply check_inv in Hc. apply Ok_inj in Hst. subst st.
-    split; [reflexivity|]. intros s' E. injection E as <-. lia.
+  - apply bind_ok in Hst as (u0 & Hc & Hst). apply check_inv in Hc.
+    apply bind_ok in Hst as (u1 & Hk & Hst). apply check_inv in Hk. apply Ok_inj in Hst. subst st.
+    split; [reflexivity|]. intros s' E. injection E as <-. split; lia.
   - apply Ok_inj in Hst. subst st. split; [reflexivity|]. intros s E; discriminate.
 Qed.
 
@@ -441,45 +442,36 @@ Proof.
   rewrite <- He. apply em_validate_ext; [rewrite B; reflexivity | exact C | exact D].
 Qed.
 
-(* clone: sound only under a side condition on the source entries *)
-Lemma clone_emode_restricted g src dst dst' :
-  ix_clone_emode src dst = Ok dst' -> cfg_valid (cb_cfg dst) ->
-  em_validate (cb_emode src) (cb_cfg dst) (cap_init g) (cap_maint g) = Ok tt ->
-  es_sorted (es_entries (cb_emode src)) ->
-  Valid g dst'.
+(* clone: the copied entries are validated against the destination; the stored entries of the source
+   bank are sorted (true of every bank: they were written by configure_emode, by clone, or are zeroed) *)
+Lemma clone_emode_valid g src dst dst' :
+  ix_clone_emode g src dst = Ok dst' -> cfg_valid (cb_cfg dst) ->
+  es_sorted (es_entries (cb_emode src)) -> Valid g dst'.
 Proof.
-  unfold ix_clone_emode. intros H Hc Hv Hs. apply Ok_inj in H. subst dst'.
-  split; [exact Hc|]. split; [exact Hv | exact Hs].
+  unfold ix_clone_emode. intros H Hc Hs. apply bind_ok in H as (u & Hv & H). apply Ok_inj in H. subst dst'.
+  split; [exact Hc|]. split; [exact (res_unit_ok _ _ Hv) | exact Hs].
 Qed.
 
-Lemma clone_emode_same_liab_weights g src dst dst' :
-  ix_clone_emode src dst = Ok dst' -> Valid g src -> Valid g dst ->
-  bc_lwi (cb_cfg src) = bc_lwi (cb_cfg dst) -> bc_lwm (cb_cfg src) = bc_lwm (cb_cfg dst) ->
-  Valid g dst'.
-Proof.
-  intros H [_ [Hes Hss]] [Hcd _] E1 E2.
-  apply (clone_emode_restricted g src dst dst' H Hcd); [|exact Hss].
-  rewrite <- Hes. apply em_validate_ext; [reflexivity | symmetry; exact E1 | symmetry; exact E2].
-Qed.
-
-(* every request other than clone *)
-Definition not_clone (r : cfg_req) : Prop := match r with RCloneFrom _ => False | _ => True end.
+(* side condition of a request: the source bank of a clone is itself in the invariant (for whatever caps
+   were in force when its entries were written); every other request is unconditioned *)
+Definition req_ok (r : cfg_req) : Prop :=
+  match r with RCloneFrom src => exists g', Valid g' src | _ => True end.
 
 Lemma paths_preserve_valid g b r b' :
-  not_clone r -> apply_req g b r = Ok b' -> Valid g b -> Valid g b'.
+  req_ok r -> apply_req g b r = Ok b' -> Valid g b -> Valid g b'.
 Proof.
-  destruct r as [o|io|d bo l|now tag es|src|s oc|]; cbn [not_clone apply_req]; intros Hn H Hv.
+  destruct r as [o|io|d bo l|now tag es|src|s oc|]; cbn [req_ok apply_req]; intros Hn H Hv.
   - eapply configure_bank_valid; eassumption.
   - eapply interest_only_valid; eassumption.
   - eapply limits_only_valid; eassumption.
   - eapply configure_emode_valid; [eassumption | exact (proj1 Hv)].
-  - contradiction.
+  - destruct Hn as (g' & _ & _ & Hs). eapply clone_emode_valid; [eassumption | exact (proj1 Hv) | exact Hs].
   - eapply propagate_valid; eassumption.
   - eapply migrate_curve_valid; eassumption.
 Qed.
 
 Lemma sequences_preserve_valid g rs : forall b,
-  Forall not_clone rs -> Valid g b -> Valid g (apply_reqs g b rs).
+  Forall req_ok rs -> Valid g b -> Valid g (apply_reqs g b rs).
 Proof.
   induction rs as [|r rest IH]; cbn [apply_reqs]; intros b Hn Hv; [exact Hv|].
   inversion Hn as [|? ? Hr Hrest]; subst. apply IH; [exact Hrest|].
@@ -498,71 +490,60 @@ Proof.
     + apply Ok_inj in H. subst b'. exact Hk.
     + apply bind_ok in H as (b1 & H1 & H). apply bind_ok in H as (u & _ & H). apply Ok_inj in H. subst b1.
       apply bank_configure_inv in H1 as (_ & _ & E & Hne). rewrite E.
-      destruct (o_op_state o) as [s|]; [apply Hne; reflexivity | exact Hk].
+      destruct (o_op_state o) as [s|]; [apply (Hne s); reflexivity | exact Hk].
   - unfold ix_configure_interest_only in H. destruct (cb_get_flag b FREEZE_SETTINGS).
     + apply Ok_inj in H. subst b'. exact Hk.
     + apply bind_ok in H as (u & _ & H). apply Ok_inj in H. subst b'. exact Hk.
   - unfold ix_configure_limits_only in H. destruct (cb_get_flag b FREEZE_SETTINGS); apply Ok_inj in H; subst b'; exact Hk.
   - unfold ix_configure_emode in H. apply bind_ok in H as (u & _ & H). apply Ok_inj in H. subst b'. exact Hk.
-  - unfold ix_clone_emode in H. apply Ok_inj in H. subst b'. exact Hk.
+  - unfold ix_clone_emode in H. apply bind_ok in H as (u & _ & H). apply Ok_inj in H. subst b'. exact Hk.
   - unfold ix_propagate_staked in H. apply bind_ok in H as (u0 & _ & H).
     apply bind_ok in H as (u1 & _ & H). apply bind_ok in H as (u2 & _ & H).
     apply Ok_inj in H. subst b'. exact Hk.
   - apply migrate_curve_inv in H as (_ & _ & E & _). rewrite E. exact Hk.
 Qed.
 
-(* a request leaves the killed state only if it is an unfrozen full configure naming a new state *)
-Definition may_revive (b : cbank) (r : cfg_req) : Prop :=
-  match r with
-  | RConfigure o => cb_get_flag b FREEZE_SETTINGS = false /\ o_op_state o <> None
-  | _ => False
-  end.
-
-Lemma killed_stays_killed g b r b' :
-  apply_req g b r = Ok b' -> op_of b = OP_KILLED -> ~ may_revive b r -> op_of b' = OP_KILLED.
+(* no request takes a bank out of the killed state *)
+Lemma killed_forever g b r b' :
+  apply_req g b r = Ok b' -> op_of b = OP_KILLED -> op_of b' = OP_KILLED.
 Proof.
-  unfold op_of. destruct r as [o|io|d bo l|now tag es|src|s oc|]; cbn [apply_req may_revive]; intros H Hk Hn.
+  unfold op_of. destruct r as [o|io|d bo l|now tag es|src|s oc|]; cbn [apply_req]; intros H Hk.
   - unfold ix_configure_bank in H. destruct (cb_get_flag b FREEZE_SETTINGS) eqn:Ef.
     + apply Ok_inj in H. subst b'. exact Hk.
     + apply bind_ok in H as (b1 & H1 & H). apply bind_ok in H as (u & _ & H). apply Ok_inj in H. subst b1.
-      apply bank_configure_inv in H1 as (_ & _ & E & _). rewrite E.
-      destruct (o_op_state o) as [s|]; [|exact Hk]. exfalso. apply Hn. split; [reflexivity | discriminate].
+      apply bank_configure_inv in H1 as (_ & _ & E & Hne). rewrite E.
+      destruct (o_op_state o) as [s|]; [|exact Hk]. exfalso. destruct (Hne s eq_refl) as [_ Hc]. exact (Hc Hk).
   - unfold ix_configure_interest_only in H. destruct (cb_get_flag b FREEZE_SETTINGS).
     + apply Ok_inj in H. subst b'. exact Hk.
     + apply bind_ok in H as (u & _ & H). apply Ok_inj in H. subst b'. exact Hk.
   - unfold ix_configure_limits_only in H. destruct (cb_get_flag b FREEZE_SETTINGS); apply Ok_inj in H; subst b'; exact Hk.
   - unfold ix_configure_emode in H. apply bind_ok in H as (u & _ & H). apply Ok_inj in H. subst b'. exact Hk.
-  - unfold ix_clone_emode in H. apply Ok_inj in H. subst b'. exact Hk.
+  - unfold ix_clone_emode in H. apply bind_ok in H as (u & _ & H). apply Ok_inj in H. subst b'. exact Hk.
   - unfold ix_propagate_staked in H. apply bind_ok in H as (u0 & _ & H).
     apply bind_ok in H as (u1 & _ & H). apply bind_ok in H as (u2 & _ & H).
     apply Ok_inj in H. subst b'. exact Hk.
   - apply migrate_curve_inv in H as (_ & _ & E & _). rewrite E. exact Hk.
 Qed.
 
-(* ---------------------------------------------------------------- witnesses of the two findings *)
+Lemma killed_forever_seq g rs : forall b, op_of b = OP_KILLED -> op_of (apply_reqs g b rs) = OP_KILLED.
+Proof.
+  induction rs as [|r rest IH]; cbn [apply_reqs]; intros b Hk; [exact Hk|].
+  apply IH. destruct (apply_req g b r) as [b1|e] eqn:E; [|exact Hk].
+  eapply killed_forever; eassumption.
+Qed.
+
+(* ---------------------------------------------------------------- regression witnesses of the two repaired findings *)
 Definition w_ir : ir_config := mkIR 0 0 0 0 0 0 0 0 4294967295 [mkRP 0 0; mkRP 0 0; mkRP 0 0; mkRP 0 0; mkRP 0 0] 1.
 Definition w_cfg (lwi lwm op : Z) : bank_cfg :=
   mkBC (ONE / 2) (ONE / 2 + ONE / 10) lwi lwm U64_MAX U64_MAX w_ir 0 op 0 0 0 60 0 0.
 Definition w_caps : caps := mkCaps 644245094 858993458.      (* basis_to_u32 of 15 and 20 *)
-Definition w_none_opt : cfg_opt :=
-  mkCO None None None None None None None None None None None None None None None None.
 Definition w_revive_opt : cfg_opt :=
   mkCO None None None None None None (Some OP_OPERATIONAL) None None None None None None None None None.
 
-(* F3: a killed bank is set back to Operational by lending_pool_configure_bank *)
+(* former F3: a killed bank and the request that used to revive it *)
 Definition w_killed : cbank := mkCBank (w_cfg ONE ONE OP_KILLED) CLOSE_ENABLED_FLAG es_zeroed.
 
-Lemma killed_revived_refuted :
-  exists g b o b', Valid g b /\ op_of b = OP_KILLED /\ ix_configure_bank g b o = Ok b' /\ op_of b' = OP_OPERATIONAL.
-Proof.
-  exists w_caps, w_killed, w_revive_opt.
-  exists (mkCBank (w_cfg ONE ONE OP_OPERATIONAL) CLOSE_ENABLED_FLAG es_zeroed).
-  split; [|split; [reflexivity | split; [vm_compute; reflexivity | reflexivity]]].
-  split; [vm_compute; reflexivity | apply emode_valid_zeroed].
-Qed.
-
-(* F4: entries valid for the source (liability weights 2.0) are copied onto a bank with liability
-   weights 1.0: collateral weight 1.5 >= liability weight 1.0, unbounded leverage *)
+(* former F4: entries valid for the source (liability weights 2.0), destination with liability weights 1.0 *)
 Definition w_entries : list emode_entry :=
   ee_sort (mkEE 7 0 (ONE + ONE / 2) (ONE + ONE / 2 + ONE / 10) :: repeat ee_zero 9).
 Definition w_src : cbank := mkCBank (w_cfg (2 * ONE) (2 * ONE) OP_OPERATIONAL) CLOSE_ENABLED_FLAG (mkES 5 0 1 w_entries).
@@ -571,17 +552,8 @@ Definition w_dst : cbank := mkCBank (w_cfg ONE ONE OP_OPERATIONAL) CLOSE_ENABLED
 Lemma w_entries_sorted : es_sorted w_entries.
 Proof. apply ee_sort_sorted. Qed.
 
-Lemma clone_emode_refuted :
-  exists g src dst dst',
-    Valid g src /\ Valid g dst /\ ix_clone_emode src dst = Ok dst' /\
-    em_validate (cb_emode dst') (cb_cfg dst') (cap_init g) (cap_maint g) = Err EBadEmodeConfig /\
-    (exists e, In e (es_entries (cb_emode dst')) /\ ee_is_empty e = false /\ bc_lwi (cb_cfg dst') <= ee_init e).
-Proof.
-  exists w_caps, w_src, w_dst, (mkCBank (cb_cfg w_dst) (cb_flags w_dst) (cb_emode w_src)).
-  split; [|split; [|split; [reflexivity | split]]].
-  - split; [vm_compute; reflexivity|]. split; [vm_compute; reflexivity | exact w_entries_sorted].
-  - split; [vm_compute; reflexivity | apply emode_valid_zeroed].
-  - vm_compute; reflexivity.
-  - exists (mkEE 7 0 (ONE + ONE / 2) (ONE + ONE / 2 + ONE / 10)). split; [vm_compute; tauto|].
-    split; [reflexivity | vm_compute; discriminate].
-Qed.
+Lemma w_src_valid : Valid w_caps w_src.
+Proof. split; [vm_compute; reflexivity|]. split; [vm_compute; reflexivity | exact w_entries_sorted]. Qed.
+
+Lemma w_killed_valid : Valid w_caps w_killed.
+Proof. split; [vm_compute; reflexivity | apply emode_valid_zeroed]. Qed.
